@@ -391,3 +391,55 @@ Proof.
     + rewrite Earg. apply cos_range; assumption.
   - rewrite Ed, Earg. reflexivity.
 Qed.
+
+(* ---- added for the equal-mass substitution route (C19 follow-up); nothing above changed ---- *)
+
+(* what well-definedness of an angle tree says about its parts *)
+Lemma acos_parts_wd_inv ρ t n l1 l2 : acos_parts t = Some (n, l1, l2) -> wdR ρ t ->
+  0 < denR ρ l1 /\ 0 < denR ρ l2 /\
+  -1 <= denR ρ n / (sqrt (denR ρ l1) * sqrt (denR ρ l2)) <= 1.
+Proof.
+  intros H.
+  unfold acos_parts in H.
+  repeat match type of H with
+         | context [match ?x with _ => _ end] => is_var x; destruct x; try discriminate H
+         end.
+  match type of H with context [is_q ?a _ _ && is_q ?b _ _] => rename a into q1; rename b into q2 end.
+  destruct (is_q q1 (-1) 2) eqn:Q1; [|discriminate]. destruct (is_q q2 (-1) 2) eqn:Q2; [|discriminate].
+  cbn [andb] in H. injection H as -> -> ->.
+  apply is_q_eq in Q1, Q2. subst q1 q2.
+  cbn [wdR]. cbn [wd_head map hd0 denR appR fold_right powQ wd_powQ Qden Qnum powZ].
+  intros [[[[[_ P1] [[_ P2] _]] _] _] Hr]. change (Pos.to_nat 1) with 1%nat in Hr.
+  assert (Hs1 : 0 < sqrt (denR ρ l1)) by now apply sqrt_lt_R0.
+  assert (Hs2 : 0 < sqrt (denR ρ l2)) by now apply sqrt_lt_R0.
+  split; [exact P1|]. split; [exact P2|].
+  replace (denR ρ n / (sqrt (denR ρ l1) * sqrt (denR ρ l2)))
+    with (/ sqrt (denR ρ l1) ^ 1 * (/ sqrt (denR ρ l2) ^ 1 * (denR ρ n * 1))) by (field; split; lra).
+  exact Hr.
+Qed.
+
+(* Two angle trees whose parts have the same values (the two square roots in either order),
+   in possibly different environments: well-definedness and value carry over. *)
+Lemma tree_transfer ρ ρ' t t' n l1 l2 n' l1' l2' :
+  acos_parts t = Some (n, l1, l2) -> acos_parts t' = Some (n', l1', l2') ->
+  poly_ok n' = true -> poly_ok l1' = true -> poly_ok l2' = true ->
+  denR ρ' n' = denR ρ n ->
+  ((denR ρ' l1' = denR ρ l1 /\ denR ρ' l2' = denR ρ l2) \/
+   (denR ρ' l1' = denR ρ l2 /\ denR ρ' l2' = denR ρ l1)) ->
+  wdR ρ t -> wdR ρ' t' /\ denR ρ' t' = denR ρ t.
+Proof.
+  intros Hp Hp' Pn P1 P2 En EL W.
+  destruct (acos_parts_wd_inv ρ t n l1 l2 Hp W) as (Q1 & Q2 & Hr).
+  destruct (acos_parts_sound ρ t n l1 l2 Hp) as [Ed _].
+  destruct (acos_parts_sound ρ' t' n' l1' l2' Hp') as [Ed' Wd'].
+  assert (Earg : denR ρ' n' / (sqrt (denR ρ' l1') * sqrt (denR ρ' l2'))
+                 = denR ρ n / (sqrt (denR ρ l1) * sqrt (denR ρ l2))).
+  { rewrite En. destruct EL as [[-> ->]|[-> ->]]; [reflexivity|].
+    now rewrite (Rmult_comm (sqrt (denR ρ l2))). }
+  split.
+  - apply Wd'; try (apply poly_ok_wd; assumption).
+    + destruct EL as [[-> _]|[-> _]]; assumption.
+    + destruct EL as [[_ ->]|[_ ->]]; assumption.
+    + rewrite Earg. exact Hr.
+  - rewrite Ed', Ed, Earg. reflexivity.
+Qed.
